@@ -1818,6 +1818,10 @@ func Expire() int {
 		return true
 	})
 
+	if bigcount == 0 {
+		// the torrents have shrunk since space was measured
+		return -1
+	}
 	fair2 := (low - smallspace) / int64(bigcount)
 
 	Range(func(h hash.Hash, t *Torrent) bool {
